@@ -1,6 +1,8 @@
 package main
 
 import (
+	"fmt"
+	"go/token"
 	"go/ast"
 	"go/constant"
 	"go/types"
@@ -27,6 +29,10 @@ func runC19(p *Program, r *Report) {
 	ruleR196(p, r)
 	r.Rule("R19.5", "E3", 8, "a value that was not revealed goes through the policy: in every type encoder, the exit of Encode that hands the incoming bytes back unchanged is reached on the 'not decrypted' edge only after EncodeOnFail answered 'no replacement, no error'")
 	ruleR195(p, r)
+	r.Rule("R19.7", "E2", 2, "result and parameter format codes are read by the protocol rule only: a slice of Bind format codes (BindPacket.paramFormats / resultFormats, the result of GetResultFormats, or a parameter such a slice is passed to) is indexed by a column or parameter number only inside GetParameterFormatByIndex (no codes = text, one code = every column, n codes = per column); direct indexing loses the one-code-for-all rule and typed columns after the first come back in the wrong format")
+	ruleR197(p, r)
+	r.Rule("R19.8", "E3", 2, "every row of a described result set is processed: in the MySQL response handler the call that decodes, reveals and re-encodes a row (processTextDataRow / processBinaryDataRow) is bypassed inside its loop only by the read-error exit, the end-of-rows packet and the 'no columns described' test on the very slice handed to it; any other skip delivers stored ciphertext under an already rewritten column type")
+	ruleR198(p, r)
 }
 
 func constOfExpr(info *types.Info, e ast.Expr) (constant.Value, bool) {
@@ -479,4 +485,199 @@ func ruleR196(p *Program, r *Report) {
 func init() {
 	mut("C19", "mysql text row reuses the previous column's context", "decryptor/mysql/response_proxy.go", "		decrCtx, value, err = handler.onColumnDecryption(ctx, i, value, false, fields[i])", "		ctx, value, err = handler.onColumnDecryption(ctx, i, value, false, fields[i])\n		decrCtx = ctx", "R19.6", "row context")
 	mut("C19", "empty default treated as no replacement", "decryptor/postgresql/types/text.go", "		} else if value != nil {\n			return ctx, value, nil\n		}\n	}\n\n	return ctx, data, nil\n}\n\n// Decode", "		} else if len(value) > 0 {\n			return ctx, value, nil\n		}\n	}\n\n	return ctx, data, nil\n}\n\n// Decode", "R19.5", "failure policy")
+}
+
+// ---- R19.7
+func ruleR197(p *Program, r *Report) {
+	allowed := map[string]string{
+		"GetParameterFormatByIndex": "the protocol rule itself",
+		"writeUint16Array":          "serialises every code as it is",
+	}
+	fmtSlices := map[ssa.Value]bool{}
+	var work []ssa.Value
+	add := func(v ssa.Value) {
+		if v != nil && !fmtSlices[v] {
+			fmtSlices[v] = true
+			work = append(work, v)
+		}
+	}
+	fns := p.SrcFuncs("decryptor/postgresql")
+	for _, fn := range fns {
+		for _, b := range fn.Blocks {
+			for _, in := range b.Instrs {
+				switch x := in.(type) {
+				case *ssa.UnOp:
+					if _, f, ok := fieldOfLoad(x); ok && (f == "paramFormats" || f == "resultFormats") {
+						add(x)
+					}
+				case *ssa.Extract:
+					if c, ok := x.Tuple.(*ssa.Call); ok && x.Index == 0 {
+						if co := calleeOfCommon(c.Common()); co != nil && co.Name() == "GetResultFormats" {
+							add(x)
+						}
+					}
+				}
+			}
+		}
+	}
+	if len(work) < 3 {
+		r.Anchor("R19.7", "loads of BindPacket.paramFormats/resultFormats and GetResultFormats results")
+		return
+	}
+	for len(work) > 0 {
+		v := work[len(work)-1]
+		work = work[:len(work)-1]
+		refs := v.Referrers()
+		if refs == nil {
+			continue
+		}
+		for _, rf := range *refs {
+			switch x := rf.(type) {
+			case *ssa.Phi:
+				add(x)
+			case *ssa.Slice:
+				if x.X == v {
+					add(x)
+				}
+			case *ssa.Store:
+				// kept in a local variable
+				if x.Val == v {
+					if al, ok := x.Addr.(*ssa.Alloc); ok && al.Referrers() != nil {
+						for _, ar := range *al.Referrers() {
+							if u, ok := ar.(*ssa.UnOp); ok {
+								add(u)
+							}
+						}
+					}
+				}
+			case ssa.CallInstruction:
+				callee := x.Common().StaticCallee()
+				if callee == nil || callee.Blocks == nil {
+					continue
+				}
+				for i, a := range x.Common().Args {
+					if a == v && i < len(callee.Params) {
+						add(callee.Params[i])
+					}
+				}
+			}
+		}
+	}
+	n := 0
+	for v := range fmtSlices {
+		refs := v.Referrers()
+		if refs == nil {
+			continue
+		}
+		for _, rf := range *refs {
+			ia, ok := rf.(*ssa.IndexAddr)
+			if !ok || ia.X != v {
+				continue
+			}
+			if _, isConst := intConst(ia.Index); isConst {
+				continue
+			}
+			// a read of the element
+			read := false
+			if ir := ia.Referrers(); ir != nil {
+				for _, u := range *ir {
+					if l, ok := u.(*ssa.UnOp); ok && l.Op == token.MUL {
+						read = true
+					}
+				}
+			}
+			if !read {
+				continue
+			}
+			n++
+			fn := ia.Parent()
+			if why, ok := allowed[fn.Name()]; ok {
+				r.OK("R19.7", fnName(fn), "format code read by index", p.Pos(ia.Pos()), why)
+				continue
+			}
+			r.Bad("R19.7", fnName(fn), "format code read by index", p.Pos(ia.Pos()), "a Bind format-code slice is indexed directly by a column/parameter number: with a single code (meaning: all columns) only index 0 gets it, every later typed column is encoded in the wrong format")
+		}
+	}
+	if n < 2 {
+		r.Bad("R19.7", "decryptor/postgresql", "format code reads", "-", fmt.Sprintf("%d indexed reads of format-code slices found, at least 2 confirmed by reading (GetParameterFormatByIndex, writeUint16Array)", n))
+	}
+}
+
+// ---- R19.8
+func ruleR198(p *Program, r *Report) {
+	fn := p.Func("decryptor/mysql.(*Handler).QueryResponseHandler")
+	if fn == nil || fn.Blocks == nil {
+		r.Anchor("R19.8", "decryptor/mysql.(*Handler).QueryResponseHandler")
+		return
+	}
+	n := 0
+	for _, name := range []string{"processTextDataRow", "processBinaryDataRow"} {
+		for _, c := range callsNamed(fn, name) {
+			n++
+			args := plainArgs(c)
+			fields := args[len(args)-1]
+			// the loop: nearest block that dominates the call and is the target of a back edge from a block it dominates
+			var header *ssa.BasicBlock
+			for d := c.Block(); d != nil; d = d.Idom() {
+				for _, pr := range d.Preds {
+					if d.Dominates(pr) && reaches(c.Block(), pr, nil) {
+						if header == nil {
+							header = d
+						}
+					}
+				}
+				if header != nil {
+					break
+				}
+			}
+			if header == nil {
+				r.Bad("R19.8", fnName(fn), name+" runs for every row", p.Pos(c.Pos()), "the row-processing call is not inside a row loop")
+				continue
+			}
+			bad := ""
+			for _, b := range fn.Blocks {
+				if !(header.Dominates(b) && b.Dominates(c.Block())) || b == c.Block() && false {
+					continue
+				}
+				iff, ok := b.Instrs[len(b.Instrs)-1].(*ssa.If)
+				if !ok || b == c.Block() {
+					continue
+				}
+				okCond := false
+				for v := range backClosure(iff.Cond) {
+					switch x := v.(type) {
+					case *ssa.Extract:
+						if cc, isC := x.Tuple.(*ssa.Call); isC && isErrorType(x.Type()) {
+							if co := calleeOfCommon(cc.Common()); co != nil && co.Name() == "ReadPacket" {
+								okCond = true // read error
+							}
+						}
+					case *ssa.Call:
+						if co := calleeOfCommon(x.Common()); co != nil && co.Name() == "IsEOF" {
+							okCond = true
+						}
+						if arg, isLen := isLenCall(x); isLen && sameCellLoad(arg, fields) {
+							okCond = true // no columns described
+						}
+					case *ssa.Const:
+						if k, isK := intConst(x); isK && k == 0xfe {
+							okCond = true // data[0] == EOFPacket
+						}
+					}
+				}
+				if !okCond {
+					bad = "the test at " + p.Pos(iff.Cond.Pos()) + " can bypass the row processing and is none of: read error, end-of-rows packet, 'no columns described' on the slice handed to " + name
+				}
+			}
+			r.Check(bad == "", "R19.8", fnName(fn), name+" runs for every row", p.Pos(c.Pos()), "only the read error, the end-of-rows packet and len(fields) == 0 bypass it", bad+": rows of a result set whose columns were already retyped reach the client undecoded (stored ciphertext in an integer-described column)")
+		}
+	}
+	if n < 2 {
+		r.Bad("R19.8", fnName(fn), "row processing calls", "-", "fewer than the two row-processing calls (text, binary) found")
+	}
+}
+
+func init() {
+	mut("C19", "pg result format taken by index from the resolved list", "decryptor/postgresql/pg_decryptor.go", "			boundFormat, err := GetParameterFormatByIndex(i, bindPacket.resultFormats)", "			var err error\n			boundFormat := base.TextFormat\n			if i < len(bindPacket.resultFormats) {\n				boundFormat = base.BoundValueFormat(bindPacket.resultFormats[i])\n			}", "R19.7", "handleQueryDataPacket")
+	mut("C19", "mysql text rows skipped when no column is binary after the type rewrite", "decryptor/mysql/response_proxy.go", "				if len(fields) == 0 {\n					continue\n				}\n				dataLog.Debugln(\"Process data text row\")", "				if len(binaryFieldIndexes) == 0 {\n					continue\n				}\n				dataLog.Debugln(\"Process data text row\")", "R19.8", "processTextDataRow")
 }
